@@ -1077,14 +1077,16 @@ def run_tracker(ordered, ttl, ops):
     else:
         tr = TR.AISTracker(ttl_in_seconds=ttl, stream_is_ordered=ordered)
     # a subscriber that registered a bound method and has since gone out of scope, in front of the observers
+    # (each of its registrations sits directly in front of the observer's registration for the same event)
     gone = _Gone()
-    for ev in TR.AISTrackEvent:
-        tr.register_callback(ev, gone.handle)
-    del gone
     evs = []
+    tr.register_callback(TR.AISTrackEvent.CREATED, gone.handle)
     tr.register_callback(TR.AISTrackEvent.CREATED, lambda t: evs.append(('C', t.mmsi)))
+    tr.register_callback(TR.AISTrackEvent.UPDATED, gone.handle)
     tr.register_callback(TR.AISTrackEvent.UPDATED, lambda t: evs.append(('U', t.mmsi)))
+    tr.register_callback(TR.AISTrackEvent.DELETED, gone.handle)
     tr.register_callback(TR.AISTrackEvent.DELETED, lambda t: evs.append(('D', t.mmsi)))
+    del gone
     # a second observer: ONE callable registered for all three events (it cannot tell the events apart, but it
     # must be called once per event)
     calls = [0]
